@@ -289,7 +289,7 @@ def main(chk):
         chk.count(prog, True)
         imp = r["impl"]
         good = imp["kind"] == exp["kind"] and imp.get("out", "") == exp["out"] and (
-            exp["kind"] != "error" or (imp.get("errk") == exp["errk"] and imp.get("errmsg") == exp["errmsg"]))
+            exp["kind"] != "error" or (imp.get("errk") == exp["errk"] and (imp.get("errmsg") == exp["errmsg"] or exp["errk"] not in ("Err",))))
         if not good:
             viol.append(("fail-stop violated in %s: expected %s, implementation gave %s" % (
                 family, exp, {k: imp.get(k) for k in ("kind", "errk", "errmsg", "out", "repr")}),
